@@ -473,6 +473,17 @@ func (r *rewriter) funcDecl(d *ast.FuncDecl) {
 		r.curFunc = recv + "." + d.Name.Name
 	}
 	r.inMain = r.isMain && recv == "" && d.Name.Name == "main"
+	// the per-run FlagSet is only declared when func main itself uses the package-level functions of
+	// package flag (a tool that builds its own FlagSet elsewhere needs none, and its main.go may not import flag)
+	mainUsesFlag := false
+	if r.inMain {
+		ast.Inspect(d.Body, func(n ast.Node) bool {
+			if _, ok := pkgSel2(n, "flag"); ok {
+				mainUsesFlag = true
+			}
+			return true
+		})
+	}
 	if r.isMain && r.on("R7") {
 		r.rewriteMainExprs(d)
 	}
@@ -508,6 +519,8 @@ func (r *rewriter) funcDecl(d *ast.FuncDecl) {
 	if r.inMain && r.on("R7") {
 		d.Name = id("Main")
 		r.in.rep.HasMain = true
+	}
+	if r.inMain && r.on("R7") && mainUsesFlag {
 		fs := []ast.Stmt{
 			&ast.AssignStmt{Lhs: []ast.Expr{id("_vfs")}, Tok: token.DEFINE, Rhs: []ast.Expr{&ast.CallExpr{Fun: &ast.SelectorExpr{X: id("flag"), Sel: id("NewFlagSet")}, Args: []ast.Expr{&ast.IndexExpr{X: r.rtCall("Args"), Index: intLit(0)}, &ast.SelectorExpr{X: id("flag"), Sel: id("ContinueOnError")}}}}},
 			&ast.ExprStmt{X: &ast.CallExpr{Fun: &ast.SelectorExpr{X: id("_vfs"), Sel: id("SetOutput")}, Args: []ast.Expr{r.rtCall("Stderr")}}},
@@ -1156,6 +1169,9 @@ func (r *rewriter) rewriteMainExprs(d *ast.FuncDecl) {
 			case "Open":
 				r.usedRT = true
 				return &ast.SelectorExpr{X: id("verifrt"), Sel: id("Open")}
+			case "ReadFile":
+				r.usedRT = true
+				return &ast.SelectorExpr{X: id("verifrt"), Sel: id("ReadFile")}
 			}
 		}
 		if name, ok := pkgSel(e, "flag"); ok && isMainFn {
@@ -1355,7 +1371,7 @@ func (r *rewriter) rewriteSync(body *ast.BlockStmt) {
 		}
 		if name, ok := pkgSel(c.Fun, "signal"); ok {
 			switch name {
-			case "Notify", "Stop", "Ignore", "Reset", "NotifyContext":
+			case "Notify", "Stop", "Ignore", "Reset", "NotifyContext", "Ignored":
 				nc := r.rtCall("Signal"+name, c.Args...)
 				nc.Ellipsis = c.Ellipsis
 				return nc
@@ -1682,6 +1698,12 @@ func (r *rewriter) selectPolled(s *ast.SelectStmt) []ast.Stmt {
 			bind := &ast.AssignStmt{Lhs: c.assign.Lhs, Tok: c.assign.Tok, Rhs: rhs}
 			body = append([]ast.Stmt{bind}, body...)
 		}
+		if i == len(cases)-1 {
+			// the last clause is the switch's default: the selector is always one of the cases, and a select whose
+			// clauses all end in a terminating statement stays a terminating statement (a function may end in it)
+			bodyCases = append(bodyCases, &ast.CaseClause{List: nil, Body: body})
+			continue
+		}
 		bodyCases = append(bodyCases, &ast.CaseClause{List: []ast.Expr{intLit(i)}, Body: body})
 	}
 	dispatch := &ast.SwitchStmt{Tag: id(sel), Body: &ast.BlockStmt{List: bodyCases}}
@@ -1695,4 +1717,13 @@ func (r *rewriter) selectPolled(s *ast.SelectStmt) []ast.Stmt {
 	)
 	// (temporaries have fresh names; the dispatch switch stays last so that a label on the select moves to it)
 	return out
+}
+
+// pkgSel2 is pkgSel for any node.
+func pkgSel2(n ast.Node, pkg string) (string, bool) {
+	e, ok := n.(ast.Expr)
+	if !ok {
+		return "", false
+	}
+	return pkgSel(e, pkg)
 }
